@@ -350,11 +350,11 @@ def splice_body(body: str, spec: FnSpec, n_loops: int, key: str) -> str:
             raise Undecided(f"{key}: loop marker {k} lost")
         rep = ("\n" + inv + "\n{") if inv.strip() else "{"
         body = body[:m.start()] + rep + body[m.end():]
-        tag = "__vx_iter!(%d," % k
-        i = body.find(tag)
+        mt = re.search(r"__vx_iter!\(\s*%d\s*," % k, body)   # prettyplease may break the line after `(`
+        i = mt.start() if mt else -1
         if i >= 0:
             j = find_matching(body, i + len("__vx_iter!"))
-            inner = body[i + len(tag):j].strip()
+            inner = body[mt.end():j].strip()
             nm = spec.iters.get(k) if spec else None
             body = body[:i] + (f"{nm}: {inner}" if nm else inner) + body[j + 1:]
     if spec:
@@ -526,6 +526,14 @@ def assemble(unit: dict, scratch: str, passname="A") -> Assembled:
         p = os.path.join(unit["dir"], sf)
         specs.update(parse_vspec(open(p).read(), p))
     fn_by_key = {f["key"]: f for f in tr["fns"]}
+    # "rename_types": {"Map": "SdkMap"} — an SDK type whose name collides with a vstd type is renamed in the
+    # generated types and the extracted functions (never in model or spec files)
+    ren = unit.get("rename_types", {})
+
+    def rn(s):
+        for a, b in ren.items():
+            s = re.sub(r"\b%s\b" % re.escape(a), b, s)
+        return s
     for k in list(specs):
         if k not in fn_by_key:
             if unit.get("ignore_missing_contracts"):
@@ -563,7 +571,7 @@ def assemble(unit: dict, scratch: str, passname="A") -> Assembled:
         if "*" not in want_types and t["name"] not in want_types:
             continue
         seen_t.add(t["name"])
-        parts.append(gen_type(t))
+        parts.append(rn(gen_type(t)))
     for it in unit.get("extra_items", []):
         parts.append(it)
     parts.append("// ==== spec pack ====")
@@ -617,7 +625,7 @@ def assemble(unit: dict, scratch: str, passname="A") -> Assembled:
         for f in groups[g]:
             key = f["key"]
             sp = specs.get(key)
-            body = splice_body(f["body"], sp, f["n_loops"], key)
+            body = splice_body(rn(f["body"]), sp, f["n_loops"], key)
             bc = (sp.opts.get("broadcast") if sp else None) or ",".join(unit.get("broadcast", []))
             if bc and bc != "none":
                 i = body.index("{")
@@ -627,7 +635,7 @@ def assemble(unit: dict, scratch: str, passname="A") -> Assembled:
             if sp and sp.trusted:
                 attrs = "#[verifier::external_body]\n"
             start = lines + 1
-            hdr = fn_header(f)
+            hdr = rn(fn_header(f))
             emit(f"// @@fn {key}  [{f['file']}]  src_sha={f['src_sha'][:16]}")
             emit(attrs + "/*@exec*/ " + hdr)
             cstart = lines + 1
@@ -648,7 +656,7 @@ def assemble(unit: dict, scratch: str, passname="A") -> Assembled:
                     continue
                 cs = lines + 1
                 emit(f"// @@canary {key}")
-                emit("/*@canary*/ " + fn_header(f, name_override=f["name"] + "__canary"))
+                emit("/*@canary*/ " + rn(fn_header(f, name_override=f["name"] + "__canary")))
                 req = strip_ensures(contract)
                 emit(req + ("\n" if req.strip() else "") + "    ensures false,")
                 bstart = lines + 1
